@@ -109,6 +109,7 @@ func (c *Config) Proxy(closing chan bool, cc io.ReadWriter, url *url.URL) error 
 	stop := make(chan bool)
 	var stopOnce sync.Once
 	endSession := func() { stopOnce.Do(func() { close(stop) }) }
+	cToS.done, sToC.done = stop, stop
 	go func() {
 		select {
 		case <-closing:
